@@ -40,8 +40,15 @@ def _classify(op, out):
 CFG = PropCfg(
     "C06", "HopModel.Props.C06",
     [SuiteCfg("C06", signature=_sig, nontrivial=_nontrivial, classify=_classify, parts_thorough=8),
-     SuiteCfg("C06t", signature=_sig, nontrivial=_nontrivial, classify=_classify, parts_thorough=4)],
-    rule="suite C06: a case is one delegate connection (new; req/junk lines, each request carrying its own scripted "
+     SuiteCfg("C06t", signature=_sig, nontrivial=_nontrivial, classify=_classify, parts_thorough=4),
+     # the wiring under the hypothesis `Verifying`: hopclient installs the approval of a connection's first intent as
+     # the additional verify callback of the handshake with the target (C01's harness and driver)
+     SuiteCfg("C01cb", binary="C01", stateless=True, parts_thorough=1, nontrivial=lambda ops, outs: True)],
+    rule="suite C01cb (C01's harness): real handshakes in both modes whose client (the principal's role towards the "
+         "target) or server carries an additional verify callback that accepts or refuses, combined with every server "
+         "policy and with the client's InsecureSkipVerify: a refusing callback ends the handshake whatever else the "
+         "policy says, so the set-up function cannot reach the target without the approval. "
+         "suite C06: a case is one delegate connection (new; req/junk lines, each request carrying its own scripted "
          "approval decision, set-up behaviour and target behaviour) run through the real "
          "authgrants.StartPrincipalInstance on scripted synchronous connections and through the Lean model; the "
          "observable per request is its event segment (callback arguments and result, decoded intents written to "
